@@ -280,6 +280,197 @@ def gen_vtime(rng, tier):
                     yield {"v": [h, m, s, f]}
 
 
+
+# ----------------------------------------------------------------- period / duration / comparison
+
+
+def impl_period(a):
+    try:
+        p = XmlPeriod(a["s"])
+    except ValueError:
+        return err("ValueError")
+    except Exception as e:  # noqa: BLE001
+        return err("LEAK:" + type(e).__name__)
+    return ok({"data": p.data, **p.as_dict()})
+
+
+def impl_dur(a):
+    try:
+        d = XmlDuration(a["s"])
+    except ValueError:
+        return err("ValueError")
+    except Exception as e:  # noqa: BLE001
+        return err("LEAK:" + type(e).__name__)
+    out = {"data": d.data, **d.asdict()}
+    if out["seconds"] is not None:
+        out["seconds"] = repr(out["seconds"])
+    return ok(out)
+
+
+def canon_dur(o):
+    if isinstance(o, dict) and "ok" in o and o["ok"].get("seconds") is not None:
+        o = {"ok": dict(o["ok"])}
+        o["ok"]["seconds"] = repr(float(o["ok"]["seconds"]))
+    return o
+
+
+def impl_cmp(a):
+    cls = KINDS[a["kind"]]
+    x, y = cls(*a["a"]), cls(*a["b"])
+    return ok([x == y, x != y, x < y, x <= y, x > y, x >= y])
+
+
+def impl_dfc(a):
+    return ok(D.days_from_civil(*a["v"]))
+
+
+PERIOD_HAND = [
+    "---01", "---31", "---32", "---00", "---1", "---01Z", "---15+05:00", "---15-14:00", "--01", "--12", "--13", "--00", "--1", "--12Z",
+    "--12+01:00", "--05--", "--05---05:00", "--05--Z", "--01-01", "--02-29", "--02-30", "--12-31", "--04-31", "--12-31Z", "--12-31-05:00",
+    "2001", "-2001", "0000", "12345", "02001", "2001Z", "2001+02:00", "2001-05:00", "-2001-05:00", "2001-10", "2001-13", "2001-00",
+    "2001-10Z", "2001-10+02:00", "2001-10-05:00", "-2001-10", "12345-10", "12345-10-05:00", " 2001 ", "2001-10-10", "", "-", "--", "---", "----01",
+    "1:", "-1:", "20:01", "2001-1", "٢٠٠١", "2001-١٠", "--0٣", "99999-12+14:00", "1-10", "001-10", "-0001", "-0001-10",
+]
+
+
+def gen_period(rng, tier):
+    for s in PERIOD_HAND:
+        yield {"s": s}
+    n = 1200 if tier == "quick" else 30000
+    for _ in range(n):
+        k = rng.randrange(5)
+        off = D.format_offset(rand_offset(rng))
+        if k == 0:
+            s = f"---{rng.randint(0, 33):02d}{off}"
+        elif k == 1:
+            s = f"--{rng.randint(0, 14):02d}{rng.choice(['', '', '--'])}{off}"
+        elif k == 2:
+            s = f"--{rng.randint(0, 13):02d}-{rng.randint(0, 32):02d}{off}"
+        elif k == 3:
+            s = D.format_date(rand_year(rng), 1, 1)[:-6] + off
+        else:
+            s = D.format_date(rand_year(rng), 1, 1)[:-6] + f"-{rng.randint(0, 13):02d}" + off
+        if rng.random() < 0.5:
+            for _ in range(rng.randint(1, 2)):
+                s = mutate(rng, s)
+        yield {"s": s}
+
+
+DUR_HAND = [
+    "P2Y6M5DT12H35M30.5S", "P1D", "PT1S", "-P1Y", "P1Y2M", "PT20M", "P20M", "PT1004199059S", "PT130S", "PT2M10S", "P0Y", "PT0.5S", "-PT0.000001S",
+    "P-20M", "P20MT", "P1YM5D", "P15.5Y", "P1D2H", "1Y2M", "P2M1Y", "P", "PT", "-P", "-PT", "P1DT", "PT1", "P1", "p1d", "P1d", " P1D ", "P1D\n",
+    "PT1x5S", "PT1_5S", "PT1e5S", "PT1E5S", "PT1.S", "PT.5S", "PT1.5.5S", "PT1S5S", "P1Y1Y", "PT1H1H", "PT1M1H", "P1M1M", "P1MT1M", "+P1D", "--P1D",
+    "P١D", "PT١.٥S", "P1²D", "P 1D", "P1 D", "PT5S\n", "P1D\n\n", "P1DT\n", "PT1\nS", "PT1\n5S", "P99999999999999999999Y", "PT1" + "0" * 400 + "S", "PT0.0000000001S",
+]
+
+
+def gen_dur(rng, tier):
+    for s in DUR_HAND:
+        yield {"s": s.replace("\\n", "\n")}
+    n = 1500 if tier == "quick" else 30000
+    for _ in range(n):
+        parts = ""
+        for c in "YMD":
+            if rng.random() < 0.4:
+                parts += f"{rng.randint(0, 10 ** rng.randint(1, 5))}{c}"
+        t = ""
+        for c in "HM":
+            if rng.random() < 0.4:
+                t += f"{rng.randint(0, 10 ** rng.randint(1, 5))}{c}"
+        if rng.random() < 0.4:
+            t += f"{rng.randint(0, 999)}" + rng.choice(["", f".{rng.randint(0, 999999)}", ".0", ".000000001"]) + "S"
+        s = rng.choice(["", "", "-"]) + "P" + parts + (("T" + t) if (t or rng.random() < 0.1) else "")
+        if rng.random() < 0.5:
+            for _ in range(rng.randint(1, 2)):
+                s = mutate_dur(rng, s)
+        yield {"s": s}
+
+
+def mutate_dur(rng, s):
+    alpha = "0123456789PYMDTHS.-+_ e\n٣²x"
+    if not s:
+        return rng.choice(alpha)
+    i = rng.randrange(len(s))
+    r = rng.random()
+    if r < 0.3:
+        return s[:i] + s[i + 1 :]
+    if r < 0.6:
+        return s[:i] + rng.choice(alpha) + s[i:]
+    if r < 0.9:
+        return s[:i] + rng.choice(alpha) + s[i + 1 :]
+    return rng.choice([" ", "\n", "\t"]) + s + rng.choice([" ", "\n", ""])
+
+
+def near(rng, v, kind):
+    """a value close to v on the timeline (so that orderings are not all trivially decided by the year)"""
+    w = list(v)
+    k = rng.randrange(6)
+    if kind == "datetime":
+        if k == 0:  # same instant, other offset
+            off = rng.choice([-60, 60, 30, -90, 840, -840])
+            h = w[3] + off // 60
+            mi = w[4] + off % 60
+            if 0 <= h <= 23 and 0 <= mi <= 59:
+                w[3], w[4], w[7] = h, mi, (w[7] or 0) + off
+        elif k == 1:
+            w[6] = max(0, min(999999999, w[6] + rng.choice([-1, 1])))
+        elif k == 2:  # next day / month boundary
+            y, m, d = w[0:3]
+            if d < D.monthlen(y, m):
+                w[2] = d + 1
+            elif m < 12:
+                w[1], w[2] = m + 1, 1
+            else:
+                w[0], w[1], w[2] = y + 1, 1, 1
+            w[3] = rng.randint(0, 23)
+        elif k == 3:
+            w[5] = (w[5] + 1) % 60
+        elif k == 4:
+            w[7] = rand_offset(rng)
+        else:
+            w = rand_value(rng, kind)
+    else:
+        if k == 0:
+            off = rng.choice([-60, 60, 30, -90])
+            h = w[0] + off // 60
+            mi = w[1] + off % 60
+            if 0 <= h <= 23 and 0 <= mi <= 59:
+                w[0], w[1], w[4] = h, mi, (w[4] or 0) + off
+        elif k == 1:
+            w[3] = max(0, min(999999999, w[3] + rng.choice([-1, 1])))
+        elif k == 2:
+            w[2] = (w[2] + 1) % 60
+        elif k == 3:
+            w[4] = rand_offset(rng)
+        else:
+            w = rand_value(rng, kind)
+    return w
+
+
+def gen_cmp(rng, tier):
+    yield {"kind": "datetime", "a": [2000, 1, 31, 12, 0, 0, 0, None], "b": [2000, 2, 1, 0, 0, 0, 0, None]}
+    yield {"kind": "datetime", "a": [2000, 1, 31, 10, 29, 3, 0, None], "b": [2000, 2, 1, 0, 0, 0, 0, None]}
+    yield {"kind": "datetime", "a": [2000, 1, 1, 0, 0, 0, 1, None], "b": [2000, 1, 1, 0, 0, 0, 0, None]}
+    yield {"kind": "datetime", "a": [-1, 12, 31, 24, 0, 0, 0, None], "b": [0, 1, 1, 0, 0, 0, 0, None]}
+    yield {"kind": "datetime", "a": [2010, 9, 20, 12, 0, 0, 0, 0], "b": [2010, 9, 20, 13, 0, 0, 0, 60]}
+    yield {"kind": "time", "a": [12, 0, 0, 0, 0], "b": [13, 0, 0, 0, 60]}
+    yield {"kind": "time", "a": [24, 0, 0, 0, None], "b": [0, 0, 0, 0, None]}
+    n = 1500 if tier == "quick" else 40000
+    for kind in ("time", "datetime"):
+        for _ in range(n):
+            v = rand_value(rng, kind)
+            yield {"kind": kind, "a": v, "b": near(rng, v, kind)}
+
+
+def gen_dfc(rng, tier):
+    for y in (-401, -400, -101, -100, -5, -4, -1, 0, 1, 4, 100, 400, 1900, 2000, 2023, 2024, 9999, 10000):
+        for m in range(1, 13):
+            for d in (1, 28, 29, 30, 31):
+                yield {"v": [y, m, d]}
+    for _ in range(300 if tier == "quick" else 20000):
+        yield {"v": [rng.randint(-10**6, 10**6), rng.randint(-3, 16), rng.randint(-5, 40)]}
+
+
 CORRS = [
     Corr("date.parse", gen_parse, impl_parse, nontrivial=lambda a, o: len(a["s"]) > 4,
          describe="XmlDate/XmlTime/XmlDateTime.from_string vs model"),
@@ -288,6 +479,10 @@ CORRS = [
     Corr("py.int", gen_int, impl_int, nontrivial=lambda a, o: len(a["s"]) > 0, describe="CPython int(str) vs Py.pyInt"),
     Corr("date.validate_date", gen_vdate, impl_validate_date),
     Corr("date.validate_time", gen_vtime, impl_validate_time),
+    Corr("period.parse", gen_period, impl_period, nontrivial=lambda a, o: len(a["s"]) > 2, describe="XmlPeriod(value) vs model"),
+    Corr("dur.parse", gen_dur, impl_dur, canon=canon_dur, nontrivial=lambda a, o: len(a["s"]) > 2, describe="XmlDuration(value) vs model"),
+    Corr("date.cmp", gen_cmp, impl_cmp, describe="six rich comparisons of XmlTime/XmlDateTime vs model key"),
+    Corr("date.days_from_civil", gen_dfc, impl_dfc),
 ]
 
 # ----------------------------------------------------------------- oracle
@@ -385,8 +580,12 @@ def oracle_parse(a):
     if got is not None:
         if not real_value(kind, got):
             return f"{kind} {s!r} denotes no real calendar date/time of day but is accepted as {got}"
+        if not _offset_ok(got):
+            # an offset beyond +-14:00 is not a valid value; the statement only
+            # speaks about dates / times of day and about valid values
+            return None
         out = str(cls(*got))
-        if xsd_components(kind, out) is None and _offset_ok(got):
+        if xsd_components(kind, out) is None:
             return f"str() of parsed value {got} is {out!r}, not XSD-valid"
         try:
             back = list(cls.from_string(out))
@@ -425,9 +624,176 @@ def gen_oracle_parse(rng, tier):
     yield from gen_parse(rng, "quick")
 
 
+
+# XSD lexical spaces of the g* types and of duration, independent of the code
+_GRE = {
+    "gDay": re.compile(r"---(?P<day>0[1-9]|[12][0-9]|3[01])" + _TZ + r"\Z"),
+    "gMonth": re.compile(r"--(?P<month>0[1-9]|1[0-2])" + _TZ + r"\Z"),
+    "gMonthDay": re.compile(r"--(?P<month>0[1-9]|1[0-2])-(?P<day>0[1-9]|[12][0-9]|3[01])" + _TZ + r"\Z"),
+    "gYear": re.compile(_YEAR + _TZ + r"\Z"),
+    "gYearMonth": re.compile(_YEAR + r"-(?P<month>0[1-9]|1[0-2])" + _TZ + r"\Z"),
+}
+
+
+def _tz(tz):
+    if tz is None:
+        return None
+    if tz == "Z":
+        return 0
+    v = int(tz[1:3]) * 60 + int(tz[4:6])
+    return -v if tz[0] == "-" else v
+
+
+def xsd_period(s):
+    t = s.strip(XSD_WS)
+    for name, rx in _GRE.items():
+        m = rx.match(t)
+        if m:
+            g = m.groupdict()
+            mo = int(g["month"]) if g.get("month") else None
+            d = int(g["day"]) if g.get("day") else None
+            if name == "gMonthDay" and d > [31, 29, 31, 30, 31, 30, 31, 31, 30, 31, 30, 31][mo - 1]:
+                return None
+            return {"year": int(g["year"]) if g.get("year") else None, "month": mo, "day": d, "offset": _tz(g["tz"])}
+    return None
+
+
+def oracle_period(a):
+    s = a["s"]
+    exp = xsd_period(s)
+    try:
+        got = XmlPeriod(s).as_dict()
+    except ValueError:
+        got = None
+    except Exception as e:  # noqa: BLE001
+        return f"XmlPeriod({s!r}) raised {type(e).__name__}"
+    if exp is not None:
+        if got is None:
+            return f"XSD-valid g* value {s!r} rejected"
+        if got != exp:
+            return f"XSD-valid g* value {s!r} parsed as {got}, XSD assigns {exp}"
+    if got is not None:
+        mo, d = got["month"], got["day"]
+        if mo is not None and not 1 <= mo <= 12:
+            return f"{s!r} accepted with month {mo}"
+        if d is not None and not 1 <= d <= ([31, 29, 31, 30, 31, 30, 31, 31, 30, 31, 30, 31][mo - 1] if mo else 31):
+            return f"{s!r} accepted with day {d}"
+    return None
+
+
+_DUR = re.compile(
+    r"(?P<neg>-?)P(?!\Z)(?:(?P<y>[0-9]+)Y)?(?:(?P<mo>[0-9]+)M)?(?:(?P<d>[0-9]+)D)?"
+    r"(?:T(?!\Z)(?:(?P<h>[0-9]+)H)?(?:(?P<mi>[0-9]+)M)?(?:(?P<s>[0-9]+(?:\.[0-9]+)?)S)?)?\Z"
+)
+
+
+def xsd_duration(s):
+    m = _DUR.match(s.strip(XSD_WS))
+    if not m:
+        return None
+    g = m.groupdict()
+    i = lambda k: int(g[k]) if g[k] is not None else None  # noqa: E731
+    return {"negative": g["neg"] == "-", "years": i("y"), "months": i("mo"), "days": i("d"), "hours": i("h"), "minutes": i("mi"),
+            "seconds": float(g["s"]) if g["s"] is not None else None}
+
+
+def oracle_dur(a):
+    s = a["s"]
+    exp = xsd_duration(s)
+    try:
+        got = XmlDuration(s).asdict()
+    except ValueError:
+        got = None
+    except Exception as e:  # noqa: BLE001
+        return f"XmlDuration({s!r}) raised {type(e).__name__}"
+    if exp is not None:
+        if got is None:
+            return f"XSD-valid duration {s!r} rejected"
+        if got != exp:
+            return f"XSD-valid duration {s!r} parsed as {got}, XSD assigns {exp}"
+    return None
+
+
+def ref_instant(kind, v):
+    """reference timeline position in ns, computed with the standard library"""
+    import datetime as _dt
+
+    if kind == "datetime":
+        y, m, d, h, mi, sec, f, off = v
+        cycles, yy = divmod(y - 1, 400)
+        days = _dt.date(yy + 1, m, d).toordinal() + cycles * 146097
+    else:
+        h, mi, sec, f, off = v
+        days = 0
+    return ((days * 24 + h) * 60 + mi - (off or 0)) * 60 * 10**9 + sec * 10**9 + f
+
+
+def oracle_cmp(a):
+    kind = a["kind"]
+    if not (real_value(kind, a["a"]) and real_value(kind, a["b"])):
+        return None
+    cls = KINDS[kind]
+    x, y = cls(*a["a"]), cls(*a["b"])
+    ix, iy = ref_instant(kind, a["a"]), ref_instant(kind, a["b"])
+    got = [x == y, x != y, x < y, x <= y, x > y, x >= y]
+    exp = [ix == iy, ix != iy, ix < iy, ix <= iy, ix > iy, ix >= iy]
+    if got != exp:
+        return f"{x!r} vs {y!r}: [==,!=,<,<=,>,>=] = {got}, the timeline says {exp}"
+    return None
+
+
+def oracle_stdlib(a):
+    """conversions to and from the standard library preserve the instant"""
+    import datetime as _dt
+
+    kind, v = a["kind"], a["v"]
+    if not real_value(kind, v) or not _offset_ok(v):
+        return None
+    cls = KINDS[kind]
+    x = cls(*v)
+    if kind == "date":
+        if not 1 <= v[0] <= 9999:
+            return None
+        d = x.to_date()
+        if (d.year, d.month, d.day) != tuple(v[:3]):
+            return f"{x!r}.to_date() = {d!r}"
+        if XmlDate.from_date(d) != XmlDate(*v[:3]):
+            return f"XmlDate.from_date({d!r}) != {x!r}"
+        dt = x.to_datetime()
+        if XmlDate.from_datetime(dt) != x:
+            return f"XmlDate.from_datetime({dt!r}) = {XmlDate.from_datetime(dt)!r} != {x!r}"
+        return None
+    if kind == "time":
+        if v[0] == 24 or v[3] % 1000:
+            return None
+        t = x.to_time()
+        back = XmlTime.from_time(t)
+        if list(back) != v:
+            return f"XmlTime.from_time({t!r}) = {back!r} != {x!r}"
+        return None
+    if not 1 <= v[0] <= 9999 or v[3] == 24 or v[6] % 1000:
+        return None
+    dt = x.to_datetime()
+    back = XmlDateTime.from_datetime(dt)
+    if list(back) != v:
+        return f"XmlDateTime.from_datetime({dt!r}) = {back!r} != {x!r}"
+    ref = ref_instant(kind, v)
+    epoch = _dt.datetime(1, 1, 1, tzinfo=_dt.timezone.utc)
+    aware = dt if dt.tzinfo else dt.replace(tzinfo=_dt.timezone.utc)
+    delta = aware - epoch
+    ns = ((delta.days + 1) * 86400 + delta.seconds) * 10**9 + delta.microseconds * 1000
+    if ns != ref:
+        return f"{x!r}.to_datetime() = {dt!r} is another instant"
+    return None
+
+
 ORACLES = [
     Oracle("c06.parse", gen_oracle_parse, oracle_parse, from_ops=("date.parse",)),
     Oracle("c06.value", gen_str, oracle_value, from_ops=("date.str",)),
+    Oracle("c06.period", gen_period, oracle_period, from_ops=("period.parse",)),
+    Oracle("c06.duration", gen_dur, oracle_dur, from_ops=("dur.parse",)),
+    Oracle("c06.cmp", gen_cmp, oracle_cmp, from_ops=("date.cmp",)),
+    Oracle("c06.stdlib", gen_str, oracle_stdlib, from_ops=("date.str",)),
 ]
 
 FINDINGS = {}
